@@ -1,18 +1,144 @@
-//! C24 — probe version
+//! C24 — the capacity limit is never exceeded by committed payloads.
+//! impl: real `Memvid` (apply_ticket sets the capacity); model: drv_c24 (Lean Core model + the repaired
+//! capacity check of MvModel/Capacity.lean); oracle (independent of the model, on the implementation's own
+//! observations): (1) no operation moves the end of the payload region — max(cached_payload_end, end of every
+//! stored frame payload), absolute — beyond capacity_limit() (it may stay where it was); (2) a put / update
+//! answered CapacityExceeded leaves the observation of the handle unchanged; (3) stats().capacity_bytes is the limit;
+//! (4) admission: an ACKNOWLEDGED put / update-with-payload fits, i.e. where the next commit will append
+//! (max(payload end, data_end)) + the stored bytes of everything acknowledged since the last commit + its own
+//! stored bytes (whole payload, or every chunk) <= capacity_limit() — the oracle keeps its own byte count.
+use memvid_core::verif_hooks;
 use mvh::hist::*;
+
+/// end of the payload region relative to the data start: the cached end and every stored payload
+fn region_end(o: &Obs) -> u64 {
+    o.frames.iter().filter(|f| f.len > 0).map(|f| f.off + f.len).fold(o.payload_end, u64::max)
+}
+fn abs_end(o: &Obs) -> u64 { WAL_OFFSET + o.wal_size + region_end(o) }
+
+fn stored_len(bytes: &[u8], level: i32) -> u64 {
+    verif_hooks::prepare_canonical_payload(bytes, level).map(|x| x.0).unwrap_or(bytes.len()) as u64
+}
+/// bytes the commit will append for this payload: the whole stored payload, or one stored payload per chunk
+/// (a non-UTF-8 document whose extracted text is chunked keeps its own payload as well)
+fn appended_bytes(bytes: &[u8], chunks: &Option<Vec<String>>, level: i32) -> u64 {
+    match chunks {
+        None => stored_len(bytes, level),
+        Some(cs) => cs.iter().map(|c| stored_len(c.as_bytes(), 3)).sum::<u64>()
+            + if std::str::from_utf8(bytes).is_ok() { 0 } else { stored_len(bytes, level) },
+    }
+}
+
+/// the part of the observation a rejected put must not touch under any reading of the property
+fn contents(o: &Obs) -> String {
+    format!("fc={} nf={} pi={} pend={} seq={} ws={} pe={} de={} ft={} cap={} q={:?} cards={:?} | {}",
+        o.frame_count, o.next_frame_id, o.pending_inserts, o.pending_records, o.seq, o.wal_size, o.payload_end, o.data_end,
+        o.footer, o.capacity, o.queue, o.cards, o.frames.iter().map(|f| f.line()).collect::<Vec<_>>().join(";"))
+}
 
 fn main() {
     let args = mvh::parse_args();
     let mut prof = GenProfile::standard(args.thorough);
+    // capacities just above the current payload end (the shared generator aims tickets at payload_end + 0..3000 /
+    // + 0..200000), puts with and without intervening commits, chunked and whole payloads; crashes and embeddings
+    // are rare in generated histories (their known findings are reproduced by the fixed corpus every run)
+    prof.w_ticket = 10; prof.w_put = 46; prof.w_update = 9; prof.w_delete = 4; prof.w_commit = 11; prof.w_reopen = 5;
+    prof.w_crash = 0; prof.w_readonly = 1; prof.w_batch = 1; prof.w_skip = 2; prof.w_finalize = 1; prof.w_vacuum = 1; prof.w_doctor = 1;
+    prof.emb_percent = 6; prof.wrong_dim_percent = 0; prof.instant_index_percent = 10;
+    prof.n_short = if args.thorough { 150 } else { 26 };
+    prof.short_len = (8, 40);
+    prof.n_long = if args.thorough { 3 } else { 0 };
     prof.corpus = corpus();
-    let cfg = FamilyConfig { property: "C24", rule: "probe", expect_branches: vec![] };
-    let mut oracle = |v: &mut StepView| -> Option<(String, String)> {
-        let a = v.after; let b = v.before;
-        let abs = |o: &Obs| WAL_OFFSET + o.wal_size + o.payload_end;
-        println!("  [{}] {} -> {} | pe {}->{} de {}->{} ft {}->{} ws {}->{} cap {} absend {} pend {} dirty {} ve {}",
-            v.index, v.op.name(), v.ack.line(), b.payload_end, a.payload_end, b.data_end, a.data_end, b.footer, a.footer,
-            b.wal_size, a.wal_size, a.capacity, abs(a), a.pending_inserts, a.dirty, a.vec_enabled);
-        None
+    let cfg = FamilyConfig {
+        property: "C24",
+        rule: "operation histories on a real .mv2 file and on the Lean model (Core model + repaired capacity check), full \
+               observation compared after every op; tickets set the capacity just above the current payload end (+0..3000, \
+               +0..200000) or far above it; puts (binary / text, whole and chunked, 0..9000 bytes, a few > 64 KiB) with and \
+               without intervening commits, updates with and without payload, deletes, reopen, skip-index commits, vacuum, \
+               doctor; fixed corpus first (pending-bytes witness, chunked, reopen, sequence at the exact limit, and the three \
+               known-finding witnesses); oracle after every op: end of payload region (cached end and frame offsets) never \
+               grows beyond capacity_limit() (excluded: commits of inserts that were pending when a ticket LOWERED the capacity), \
+               a CapacityExceeded answer leaves the observation unchanged; non-trivial = at \
+               least two acknowledged mutations and a commit point; distinct = op/answer trace",
+        expect_branches: vec!["reject-capacity", "capacity-reject-while-pending", "tight-accept", "tight-commit", "tight-chunked-accept",
+                              "chunked-put", "op-commit", "op-reopen", "op-ticket", "update-payload", "update-reuse", "corpus"],
+    };
+    // WAL growth (bytes) since the handle was last clean (no pending inserts): the region was shifted by that
+    // much after the pending bytes were admitted
+    let mut shift_since_clean: u64 = 0;
+    // a ticket lowered the capacity while inserts were pending (they were admitted under the larger grant):
+    // generator precondition of the property, such a commit is outside what a put-time check can guarantee
+    let mut lowered_while_pending = false;
+    // the oracle's own count of stored bytes acknowledged since the last commit
+    let mut admitted: u64 = 0;
+    let mut oracle = move |v: &mut StepView| -> Option<(String, String)> {
+        let (a, b) = (v.after, v.before);
+        if v.index == 0 { shift_since_clean = 0; lowered_while_pending = false; admitted = 0; }
+        if matches!(v.op, Op::Ticket { .. }) && v.ack.is_ok() && a.capacity < b.capacity && b.pending_inserts > 0 { lowered_while_pending = true; }
+        let grew_now = a.wal_size > b.wal_size;
+        let shift = shift_since_clean + a.wal_size.saturating_sub(b.wal_size);
+        let tight = |o: &Obs| o.capacity.saturating_sub(abs_end(o)) < 250_000;
+        // coverage tags
+        if matches!(v.op, Op::Put(_) | Op::Update(_)) {
+            if v.ack.is_ok() && tight(b) {
+                v.world.branches.push("tight-accept".into());
+                if a.next_frame_id > b.next_frame_id + 1 { v.world.branches.push("tight-chunked-accept".into()); }
+            }
+            if let Ack::Err(k, _) = v.ack { if k == "capacity" && b.pending_inserts > 0 { v.world.branches.push("capacity-reject-while-pending".into()); } }
+        }
+        if region_end(a) > region_end(b) && tight(a) { v.world.branches.push("tight-commit".into()); }
+        // (1) growth never beyond the limit
+        let mut res: Option<(String, String)> = None;
+        if abs_end(a) > a.capacity && abs_end(a) > abs_end(b) && lowered_while_pending {
+            v.world.branches.push("excluded-ticket-lowered-capacity-while-pending".into());
+        } else if abs_end(a) > a.capacity && abs_end(a) > abs_end(b) {
+            let what = format!("payload region ended at byte {} (data start {} + {}) before the op and ends at byte {} (data start {} + {}) after it; capacity_limit() = {}",
+                abs_end(b), WAL_OFFSET + b.wal_size, region_end(b), abs_end(a), WAL_OFFSET + a.wal_size, region_end(a), a.capacity);
+            // the excess is explained by the WAL growth alone: without the shift the region would end inside the limit
+            let sig = if shift > 0 && abs_end(a) - shift <= a.capacity { "wal-growth-moves-payload-region-past-capacity" }
+                else if matches!(v.op, Op::Crash) && b.pending_inserts > 0 { "crash-replay-appends-payloads-after-index-region" }
+                else { "payload-region-grows-beyond-capacity" };
+            res = Some((sig.into(), what));
+        }
+        // (2) a put / update answered CapacityExceeded leaves the memory unchanged
+        if res.is_none() {
+            if let (Op::Put(_) | Op::Update(_), Ack::Err(k, d)) = (v.op, v.ack) {
+                if k == "capacity" {
+                    if contents(a) != contents(b) {
+                        res = Some(("capacity-rejected-put-changed-memory".into(), format!("{d}; before: {} after: {}", b.head(), a.head())));
+                    } else if a.line() != b.line() {
+                        let embedded = match v.op { Op::Put(p) => p.emb.is_some() || p.chunk_embs.as_ref().is_some_and(|c| !c.is_empty()), Op::Update(u) => u.emb.is_some() || b.vec_enabled, _ => false };
+                        let sig = if embedded { "capacity-rejected-embedded-put-touches-vector-index" } else { "capacity-rejected-put-changed-memory" };
+                        res = Some((sig.into(), format!("{d}; before: {} after: {}", b.head(), a.head())));
+                    }
+                }
+            }
+        }
+        // (4) admission: an acknowledged put fits behind everything acknowledged before it
+        let level = v.world.batch.map(|x| x.1).unwrap_or(3);
+        let incoming: Option<u64> = match (v.op, v.ack.is_ok()) {
+            (Op::Put(p), true) => { let bytes = p.payload.bytes(); let cs = verif_hooks::put_chunk_plan(&bytes, p.uri.as_deref()).unwrap_or(None); Some(appended_bytes(&bytes, &cs, level)) }
+            (Op::Update(u), true) => u.payload.as_ref().map(|pl| { let bytes = pl.bytes(); let cs = v.world.mem().preview_chunks(&bytes); appended_bytes(&bytes, &cs, level) }),
+            _ => None,
+        };
+        if let Some(inc) = incoming {
+            let tail = WAL_OFFSET + b.wal_size + b.payload_end.max(b.data_end) + admitted;
+            if res.is_none() && tail + inc > b.capacity {
+                res = Some(("put-admitted-beyond-capacity".into(), format!("the put was acknowledged although the next commit appends at byte {} (data start {} + max(payload end {}, data_end {}) + {} bytes acknowledged since the last commit) and it stores {} bytes: {} > capacity_limit() = {}",
+                    tail, WAL_OFFSET + b.wal_size, b.payload_end, b.data_end, admitted, inc, tail + inc, b.capacity)));
+            }
+            admitted += inc;
+        }
+        if a.pending_inserts == 0 { admitted = 0; }
+        // (3) the limit the oracle uses is the one the public API reports
+        if res.is_none() && v.index % 4 == 0 {
+            if let Ok(st) = v.world.mem().stats() {
+                if st.capacity_bytes != a.capacity { res = Some(("stats-capacity-differs".into(), format!("stats().capacity_bytes = {} but capacity_limit() = {}", st.capacity_bytes, a.capacity))); }
+            }
+        }
+        shift_since_clean = if a.pending_inserts == 0 && !grew_now { 0 } else { shift };
+        if a.pending_inserts == 0 { lowered_while_pending = false; }
+        res
     };
     run_family(cfg, prof, &mut oracle);
 }
@@ -24,12 +150,22 @@ fn corpus() -> Vec<(String, Vec<Op>)> {
     let mut emb = PutSpec::simple(PayloadSpec::new(PayloadKind::Bin, 500, 9), 105);
     emb.emb = Some(EmbSpec { dim: 3, seed: 4 });
     vec![
-        ("A-witness".into(), vec![ticket(2, base + 3000), put(PayloadKind::Bin, 2000, 1, 100), put(PayloadKind::Bin, 2000, 2, 101), Op::Commit]),
-        ("B-chunked".into(), vec![ticket(2, base + 2600), put(PayloadKind::Ascii, 6000, 1, 100), Op::Commit]),
-        ("C-reopen".into(), vec![put(PayloadKind::Bin, 1000, 1, 100), Op::Commit, Op::Reopen, ticket(2, base + 1100), put(PayloadKind::Bin, 50, 2, 101), Op::Commit]),
-        ("C2-crash".into(), vec![put(PayloadKind::Bin, 1000, 1, 100), Op::Commit, ticket(2, base + 1100), put(PayloadKind::Bin, 50, 2, 101), Op::Crash]),
-        ("D-walgrow".into(), vec![ticket(2, base + 100_000), put(PayloadKind::Rand, 90_000, 1, 100), Op::Commit]),
-        ("E-emb-reject".into(), vec![ticket(2, base + 100), Op::Put(emb)]),
-        ("F-seq".into(), vec![ticket(2, base + 3000), put(PayloadKind::Bin, 2000, 1, 100), Op::Commit, put(PayloadKind::Bin, 2000, 2, 101), put(PayloadKind::Bin, 900, 3, 102), Op::Commit]),
+        // the confirmed defect (repaired by fixes/C24.diff): pending bytes are not counted
+        ("pending-bytes-ignored".into(), vec![ticket(2, base + 3000), put(PayloadKind::Bin, 2000, 1, 100), put(PayloadKind::Bin, 2000, 2, 101), Op::Commit]),
+        // after a reopen the next commit appends at data_end = old footer: the index bytes join the payload region
+        ("append-after-reopen".into(), vec![put(PayloadKind::Bin, 1000, 1, 100), Op::Commit, Op::Reopen, ticket(2, base + 1100), put(PayloadKind::Bin, 50, 2, 101), Op::Commit]),
+        // chunked documents store one compressed payload per chunk (more than the prepared whole payload)
+        ("chunked-under-tight-grants".into(), vec![ticket(2, base + 2250), put(PayloadKind::Ascii, 6000, 1, 100), Op::Commit,
+            ticket(3, base + 6000), put(PayloadKind::Utf8, 5000, 2, 101), put(PayloadKind::Ascii, 2500, 3, 102), Op::Commit, Op::Reopen]),
+        // exactly at the limit, then one byte over; update with payload while bytes are pending
+        ("exact-limit".into(), vec![ticket(2, base + 3000), put(PayloadKind::Bin, 2000, 1, 100), put(PayloadKind::Bin, 1000, 2, 101), put(PayloadKind::Bin, 1, 3, 102), Op::Commit,
+            put(PayloadKind::Empty, 0, 4, 103), Op::Update(UpdSpec { id: 0, tags: vec!["t".into()], ..Default::default() }),
+            Op::Update(UpdSpec { id: 1, payload: Some(PayloadSpec::new(PayloadKind::Bin, 10, 5)), ..Default::default() }), Op::Commit, Op::Reopen]),
+        ("commit-between".into(), vec![ticket(2, base + 3000), put(PayloadKind::Bin, 2000, 1, 100), Op::Commit, put(PayloadKind::Bin, 2000, 2, 101), put(PayloadKind::Bin, 900, 3, 102),
+            put(PayloadKind::Bin, 200, 4, 103), Op::Commit, Op::Delete { id: 0 }, Op::Commit, put(PayloadKind::Bin, 150, 5, 104), Op::Commit]),
+        // known findings (not repaired), reproduced every run
+        ("kf-wal-growth".into(), vec![ticket(2, base + 100_000), put(PayloadKind::Rand, 90_000, 1, 100), Op::Commit]),
+        ("kf-crash-replay".into(), vec![put(PayloadKind::Bin, 1000, 1, 100), Op::Commit, ticket(2, base + 1100), put(PayloadKind::Bin, 50, 2, 101), Op::Crash]),
+        ("kf-embedded-reject".into(), vec![ticket(2, base + 100), Op::Put(emb)]),
     ]
 }
